@@ -96,7 +96,8 @@ CLAIMED["C25"] = (
     "set dependency-closed at every loop head and at exit (so nothing a kept root transitively depends on is outside it), that the kept "
     "sources cover every local source of every kept target (for every map iteration order), and that no proposed source file is a source of any "
     "kept target. publicDependencies looks through a dependency only when it is a sub-target of the same rule and returns every other dependency. "
-    "Kernel-only: WHICH roots are chosen and the gc_sibling redirection of the final removal list are not covered by an obligation.",
+    "and the removal list only ever receives targets outside the kept set (call-site obligation on append; exposed the gc_sibling defect "
+    "repaired in /repo). Kernel-only: WHICH roots are chosen is not covered by an obligation.",
     COMMON_NOTE + "Dependencies(), DeclaredDependencies(), graph.Target(), AllLocalSourcePaths() and PackageMap() are assumed "
     "pure functions (publicDependencies is used as a function of its arguments by callers and verified separately) of the graph; sort.Sort/sort.Strings are permutations (assumed); nil-dereference obligations are switched off for targetsToRemove.",
     "contract-based deductive verification (recursive contract, closure invariants over maps + SMT)", "6/C25")
